@@ -7,7 +7,8 @@
     at is live).
 
     Proved, for every recovered store and every schedule:
-    - [C11_stable_partial]: schedules without GC (rotation, flushes, the L0 move) keep every
+    - [C11_stable_partial]: schedules without value-log operations ([is_gc]: GC and the filler
+      writes that rotate a value-log file; i.e. rotation, flushes, the L0 move) keep every
       read (flushes and the move are order-preserving relabellings of the sources in the
       model, which is C01's maintenance theorem);
     - [C11_gc_writes_back_referenced_only]: every record a GC step writes back is the target
